@@ -319,6 +319,13 @@ def r_plumb(ctx):
     namesake_plumbing(ctx, ctx.prog, r"^(<)?dnp3::master::", 40, "plumbing")
 
 
+def r7(ctx):
+    """'a failing automatic task is retried after delays that start at the configured minimum, double each time': the back-off
+    only advances if the failure is REPORTED; a task handler that returns an error without completing / reporting (C16.R7) leaves the
+    task Pending and it is re-issued at once, forever. Shared code."""
+    import c16
+    c16.r7(ctx)
+
 RULES = [
     ("C17.R1", "T2-order", "priority order of the automatic tasks; namesake tasks; auto before polls", r1),
     ("C17.R2", "T5/T2", "what a restart indication re-arms; process_iin routing and placement", r2),
@@ -326,4 +333,5 @@ RULES = [
     ("C17.R4", "T2-cut", "unsolicited data gated by integrity completion; who opens the gate", r4),
     ("C17.R5", "T8/T11", "back-off provenance and clamping; failure/success hooks are namesakes", r5),
     ("C17.R6", "T8-namesake", "the master's association configuration is plumbed field-to-namesake", r_plumb),
+    ("C17.R7", "T3", "every failure path of an automatic task reports to its failure hook (shared with C16.R7)", r7),
 ]
